@@ -254,6 +254,36 @@ def ctor_cases(ctx, cname, k, K):
                     ctx.fail(cid, cname, 'invalid-member', P, bad)
 
 
+def variant_constructors(ctx):
+    """the named constructors with arguments outside their documented domain (a differential motion that is not small, exponential
+    coordinates that are not in the algebra, degenerate direction pairs): refused, or the object holds members"""
+    import spatialmath as sm
+    M44 = np.arange(16.0).reshape(4, 4) / 10
+    M33 = np.arange(9.0).reshape(3, 3) / 10
+    cases = []
+    for mag in (1e-9, 1e-6, 1e-3, 0.1, 1.0):
+        cases.append(('SE3.Delta/|d|=%g' % mag, sm.SE3, 'SE3', (4, 4), lambda mag=mag: sm.SE3.Delta(mag * np.array([1.0, 2, 3, 1, -2, 3]))))
+        cases.append(('SE3.Delta/rot-only/|d|=%g' % mag, sm.SE3, 'SE3', (4, 4), lambda mag=mag: sm.SE3.Delta(mag * np.array([0.0, 0, 0, 1, 1, 1]))))
+    cases += [('SE3.Exp/4x4-not-se3', sm.SE3, 'SE3', (4, 4), lambda: sm.SE3.Exp(M44.copy())), ('SO3.Exp/3x3-not-so3', sm.SO3, 'SO3', (3, 3), lambda: sm.SO3.Exp(M33.copy())),
+              ('SE2.Exp/3x3-not-se2', sm.SE2, 'SE2', (3, 3), lambda: sm.SE2.Exp(M33.copy())), ('SO2.Exp/2x2-not-so2', sm.SO2, 'SO2', (2, 2), lambda: sm.SO2.Exp(np.array([[0.1, 0.2], [0.3, 0.4]]))),
+              ('SE3.Exp/4x4-not-se3/check=False', sm.SE3, 'SE3', (4, 4), lambda: sm.SE3.Exp(M44.copy(), check=False)), ('SO3.Exp/3x3-not-so3/check=False', sm.SO3, 'SO3', (3, 3), lambda: sm.SO3.Exp(M33.copy(), check=False)),
+              ('SO3.OA/parallel', sm.SO3, 'SO3', (3, 3), lambda: sm.SO3.OA([0, 1, 0], [0, 2, 0])), ('SE3.OA/parallel', sm.SE3, 'SE3', (4, 4), lambda: sm.SE3.OA([0, 1, 0], [0, 2, 0])),
+              ('SO3.OA/zero', sm.SO3, 'SO3', (3, 3), lambda: sm.SO3.OA([0, 0, 0], [0, 0, 1])), ('SO3.AngVec/zero-axis', sm.SO3, 'SO3', (3, 3), lambda: sm.SO3.AngVec(0.3, [0, 0, 0])),
+              ('SE3.AngVec/zero-axis', sm.SE3, 'SE3', (4, 4), lambda: sm.SE3.AngVec(0.3, [0, 0, 0])), ('SO3.EulerVec/zero', sm.SO3, 'SO3', (3, 3), lambda: sm.SO3.EulerVec([0, 0, 0])),
+              ('SE3.SO3/array-not-member', sm.SE3, 'SE3', (4, 4), lambda: sm.SE3.SO3(M33.copy())), ('SE2.SE3 of checked', sm.SE3, 'SE3', (4, 4), lambda: sm.SE2(1, 2, 0.3).SE3())]
+    for name, C, kind, shape, f in cases:
+        cid = 'C07/variant/' + name
+        if not ctx.want(cid):
+            continue
+        ctx.case(cid, key=cid)
+        ok, r = call(f)
+        ctx.cell(name.split('/')[0], 'raised' if not ok else 'returned')
+        if ok and type(r) is C:
+            bad = inspect_object(r, shape, kind, C)
+            if bad:
+                ctx.fail(cid, name.split('/')[0], 'invalid-member', dict(cls=kind, defect='domain', container=name.split('/', 1)[1]), '%s returned a %s object: %s' % (name, kind, bad))
+
+
 def subsuper_cases(ctx):
     """an object of the sub/super class (or a foreign class) handed to a constructor"""
     import spatialmath as sm
@@ -465,6 +495,21 @@ def constructor_outputs(ctx):
             ok, T = call(b.trexp, np.r_[0.5, -1.5, 2.0, ax * th])
             if ok:
                 pred(ctx, 'C07/out/base.ishom/trexp/%s/%s' % (tn, xn), 'base.ishom', dict(fn='trexp6', theta=tn, axis=xn), b.ishom, T, True, check=True)
+    # Rodrigues' formula loses a few eps of orthogonality towards a half turn (residual up to ~14 eps for oblique axes): a complete grid of
+    # angles 2.50 .. 3.50 (step 0.01) x all integer axis directions with components in -2..2
+    import spatialmath as sm_
+    for ti in range(250, 351):
+        th = ti / 100.0
+        for ax in itertools.product((-2, -1, 0, 1, 2), repeat=3):
+            if not any(ax) or (tier == 'quick' and (ti + 7 * ax[0] + 3 * ax[1] + ax[2]) % 3):
+                continue
+            an = '%d,%d,%d' % ax
+            ok, R = call(b.angvec2r, th, list(ax))
+            if ok:
+                P = dict(fn='angvec2r', theta='%.2f' % th, axis=an, grid=1)
+                pred(ctx, 'C07/out/grid/base.isrot/angvec2r/%.2f/%s' % (th, an), 'base.isrot', P, b.isrot, R, True, check=True)
+                pred(ctx, 'C07/out/grid/SO3.isvalid/angvec2r/%.2f/%s' % (th, an), 'SO3.isvalid', P, sm_.SO3.isvalid, R, True)
+                pred(ctx, 'C07/out/grid/base.ishom/angvec2tr/%.2f/%s' % (th, an), 'base.ishom', P, b.ishom, ref.rt(R, (0.5, -1.5, 2.0)), True, check=True)
     for name, o, a, extra in c01.oa_pairs(tier, seed):
         ok, R = call(b.oa2r, o, a)
         if ok:
@@ -578,7 +623,7 @@ def shards(tier, seed):
     for c in ('SO2', 'SE2', 'SO3', 'SE3'):
         K = 2 if tier == 'quick' else 8
         out += [('ctor', c, k, K) for k in range(K)]
-    out += [('subsuper',), ('uq',), ('twist',), ('outputs',), ('algebra',)]
+    out += [('subsuper',), ('uq',), ('twist',), ('outputs',), ('algebra',), ('variant',)]
     K = 2 if tier == 'quick' else 8
     out += [('member', k, K) for k in range(K)]
     return out
@@ -590,6 +635,8 @@ def run_shard(ctx, shard):
         ctor_cases(ctx, shard[1], shard[2], shard[3])
     elif k == 'subsuper':
         subsuper_cases(ctx)
+    elif k == 'variant':
+        variant_constructors(ctx)
     elif k == 'uq':
         uq_cases(ctx)
     elif k == 'twist':
